@@ -722,3 +722,40 @@ func Flush() {
 
 // B64 is a helper for messages.
 func B64(b []byte) string { return base64.StdEncoding.EncodeToString(b) }
+
+// FuzzTarget wires one check of a plan into Go's native coverage-guided
+// fuzzer (thorough tier only): the fuzzer mutates the input bytes, parameters
+// stay at their defaults. seeds are added to the corpus next to the inputs of
+// the listed findings. The driver turns a crasher file into a replay file.
+func FuzzTarget(f *testing.F, p Plan, check string, seeds [][]byte) {
+	var ck *Check
+	for i := range p.Checks {
+		if p.Checks[i].Name == check {
+			ck = &p.Checks[i]
+		}
+	}
+	if ck == nil {
+		f.Fatalf("unknown check %q", check)
+	}
+	for _, s := range seeds {
+		f.Add(s)
+	}
+	for _, fd := range LoadFindings() {
+		if fd.Property == p.Prop {
+			c := fd.AsCase()
+			f.Add(c.In)
+		}
+	}
+	f.Fuzz(func(t *testing.T, in []byte) {
+		c := Case{In: in}
+		res := safeProp(ck.Prop, c)
+		if res.Err != nil {
+			if p.Suppress != nil {
+				if _, ok := p.Suppress(ck.Name, c, res.Err); ok {
+					return
+				}
+			}
+			t.Fatalf("%s/%s violated: %v\ncase: %s", p.Prop, ck.Name, res.Err, c.Describe())
+		}
+	})
+}
